@@ -5,12 +5,13 @@ from __future__ import annotations
 import ast
 
 import itertools
+import math
 from fractions import Fraction as F
 
 from sa import term as T
 from sa.effects import Effects
 from sa.interp import EnumMember, Opaque, RaiseSignal, SObj, SVar
-from sa.load import AnalysisError, Repo, loc
+from sa.load import AnalysisError, Repo, loc, where_of
 from sa.report import Run
 from sa.term import Rat
 from sa.units import NO_UNIT, Unit
@@ -31,11 +32,17 @@ class FitModel(WitnessModel):
         self.fit_raises = False
         self.popt_factory = None
 
+    def _isinstance(self, interp, x, t, node):
+        if isinstance(x, ModelStub):
+            ts = t if isinstance(t, tuple) else (getattr(t, 'members', None) or (t,))
+            return any(getattr(getattr(t_, 'ci', None), 'name', '') == 'Model' for t_ in ts)
+        return super()._isinstance(interp, x, t, node)
+
     def call_ext(self, interp, path, args, kwargs, node):
         if path.endswith('curve_fit'):
             self.fits.append({'f': args[0] if args else kwargs.get('f'), 'data': args[1] if len(args) > 1 else kwargs.get('da'),
                               'p0': kwargs.get('p0'), 'bounds': kwargs.get('bounds')})
-            if self.fit_raises:
+            if self.fit_raises(kwargs.get('p0')) if callable(self.fit_raises) else self.fit_raises:
                 raise RaiseSignal('RuntimeError', node, interp.where(node), ('optimiser did not converge',))
             return (self.popt_factory(interp, self, kwargs.get('p0')), Opaque('covariance'))
         if path.endswith('chi2') and len(args) == 1:
@@ -75,6 +82,7 @@ class ModelStub:
         self.guesses = []
         self.parts = ()
         self.fwhm_value = None
+        self.prefixes = []
 
     @property
     def param_bounds(self):
@@ -83,6 +91,7 @@ class ModelStub:
     def __add__(self, other):
         m = ModelStub(self.world, f'{self.name}+{other.name}', self.param_names | other.param_names)
         m.parts = (self, other)
+        self.world.composites.append(m)
         return m
 
     def guess(self, data, **kw):
@@ -99,11 +108,16 @@ class ModelStub:
         if its is None:
             raise AnalysisError(f'model {self.name} evaluated on {x!r}')
         k = len(self.calls)
-        out = [sym_scalar(w.it, w.model, f'f_{self.name}_{k}_{T.show(c.term)}', CNT, 1 + i) for i, c in enumerate(its)]
+        fv = w.f_values.get(self.name, lambda i: 1 + i)
+        out = [sym_scalar(w.it, w.model, f'f_{self.name}_{k}_{T.show(c.term)}', CNT, fv(i)) for i, c in enumerate(its)]
         return w.model.array(w.it, out, x.members['dims'][0])
 
     def fwhm(self, popt):
         return self.fwhm_value
+
+    def with_prefix(self, prefix):
+        self.prefixes.append(prefix)  # the stub's parameter names already carry the prefix the caller will ask for
+        return self
 
 
 class World:
@@ -115,6 +129,10 @@ class World:
         self.it.concrete_enums = True
         self.it.events, self.it.conditions = [], []
         self.guess_needs = None
+        # witness value of a logarithm (only to decide comparisons between statistics; the terms stay exact)
+        self.model.fns['log'] = lambda x: F(math.log(float(x))).limit_denominator(10 ** 9)
+        self.f_values: dict = {}   # model name -> witness value of its i-th evaluated point (default 1 + i)
+        self.composites: list = []  # the sums of models the code under analysis builds
         self.assess = self.it.enum_members(repo.cls(MOD, 'FitAssessment'))
 
     def scalar(self, name, unit, value, positive=False):
@@ -141,39 +159,58 @@ class World:
             return 'raise', r.exc_type
 
 
-def stub_existing(w, repo, name, fn):
-    """Replace a private helper by a stub where the helper exists (it is not part of the rule)."""
-    try:
-        w.it.stubs[repo.func(MOD, name).fq] = fn
-    except AnalysisError:
-        pass
+def fit_through_public(w, repo, data, *, peaks, bkgs, windows=None, window=None, estimates=None, width=None, requirements=None):
+    """fit_peaks(...) itself: explicit windows (one row per estimate) or a 0-d width.  Returns (kind, list of FitResult | exc)."""
+    ffi = repo.func(MOD, 'fit_peaks')
+    if window is not None:
+        windows = w.model.matrix(w.it, [window], 'x')
+        wv = [w.model.value(x) for x in items_of(window)]
+        estimates = w.model.array(w.it, [w.scalar('c0', ANG, (wv[0] + wv[1]) / 2)], 'x')
+    kwargs = {'peak_estimates': estimates, 'windows': windows if windows is not None else width, 'background': bkgs, 'peak': peaks,
+              'fit_parameters': fit_params(w)}
+    if requirements is not None:
+        kwargs['fit_requirements'] = requirements
+    return w.call(ffi, [data], kwargs)
+
+
+def requirements(repo, **kw):
+    return SObj(repo.cls('peaks._common', 'FitRequirements'), {'min_p_value': 0.01, 'max_peak_width_factor': 1.0, 'min_peak_width_factor': 1.0, **kw})
+
+
+def program(w, peaks, bkgs, *, violate=(), loc_val=None, width=None, offset=0, bkg_fit_fails=False):
+    """Program the stubs of the third-party calls (optimiser, chi-square distribution) and the model stand-ins so that every
+    candidate (peak, background) fit of the window meets every requirement except those named in `violate`."""
+    for pk in peaks:
+        pk.fwhm_value = w.scalar(f'fwhm_{pk.name}', ANG, width if width is not None else (6 if 'peak_too_wide' in violate else (3 if 'peak_too_narrow' in violate else F(9, 2))),
+                                 positive=True)
+    good, poor = (lambda i: 9 + offset + i), (lambda i: 0)  # data points are 10 + offset + i: a small chi-square against a large one
+    better = 'background_is_better' in violate
+    for bg in bkgs:
+        w.f_values[bg.name] = good if better else poor
+        for pk in peaks:
+            w.f_values[f'{bg.name}+{pk.name}'] = poor if better else good
+    w.model.fns['chi2cdf'] = lambda dof, x: F(999, 1000) if 'p_too_small' in violate else F(1, 2)
+    vals = {'peak_loc': (ANG, F(6) if loc_val is None else loc_val), 'peak_amplitude': (CNT, -1 if 'peak_points_down' in violate else 5)}
+    w.model.popt_factory = lambda it, m, p0, w=w: {k: with_variance(w, w.scalar(f'opt_{k}', *vals.get(k, (CNT, 1)))) for k in sorted(p0)}
+    if bkg_fit_fails:
+        w.model.fit_raises = lambda p0: not any(k.startswith('peak_') for k in (p0 or {}))
+
+
+def steer(w, *, violate=(), loc_val=None, width=None, params=('peak_amplitude', 'peak_loc'), bkg_params=('bkg_a0',), bkg_fit_fails=False, offset=0):
+    """One peak and one background stand-in, programmed by program().  Returns (peak, background)."""
+    peak = ModelStub(w, 'peak', list(params))
+    bkg = ModelStub(w, 'bkg', list(bkg_params))
+    program(w, [peak], [bkg], violate=violate, loc_val=loc_val, width=width, offset=offset, bkg_fit_fails=bkg_fit_fails)
+    return peak, bkg
+
+
+def full_fits(w):
+    """The optimiser calls for a peak + background model (those for a background alone are the comparison fits)."""
+    return [f_ for f_ in w.model.fits if any(k.startswith('peak_') for k in (f_.get('p0') or {}))]
 
 
 def assessment_name(v):
     return v.name if isinstance(v, EnumMember) else repr(v)
-
-
-def as_declared(repo, fi, param: str, stats):
-    """The statistics in the representation `fi` declares for `param`: a dict today, a private record (NamedTuple / dataclass)
-    with those fields after a refactoring."""
-    if stats is None:
-        return None
-    a = next((x for x in fi.node.args.args + fi.node.args.kwonlyargs if x.arg == param), None)
-    ann = ast.unparse(a.annotation).strip('\'"') if a is not None and a.annotation is not None else ''
-    for part in ann.split('|'):
-        ci = repo.module(fi.module).classes.get(part.strip())
-        if ci is not None and {n for n, _ in ci.dataclass_fields()} >= set(stats):
-            return SObj(ci, dict(stats))
-    return stats
-
-
-def stats_dict(w, stats):
-    """Statistics handed out as a dict or as a record with the same field names."""
-    if isinstance(stats, dict):
-        return stats
-    if isinstance(stats, SObj):
-        return {n: w.it.getattr(stats, n, None) for n, _ in stats.cls.dataclass_fields()}
-    return None
 
 
 def run(tier: str) -> Run:
@@ -197,47 +234,48 @@ def run(tier: str) -> Run:
     run.analysed = {'modules': [MOD, 'peaks._remove_peaks'], 'digest': repo.digest.hexdigest()}
     run.trusted = ['sa/witness.py', 'scipp.curve_fit and scipy.stats.chi2 (stubs)', 'label-based slicing selects lo <= x < hi on a sorted coordinate']
 
-    # ---- R1: the point-count guard and the failure paths --------------------------------------------------
+    # ---- R1: the point-count guard and the failure paths (through fit_peaks) --------------------------------------
     r1 = run.rule('R1', 'too few points -> window-too-narrow result (no exception, data not consumed); optimiser failure -> failed result', 6)
-    sfi = repo.func(MOD, '_fit_peak_single_model')
-    stub_names = ('_assess_fit',)
+    ffi = repo.func(MOD, 'fit_peaks')
+    ffi_loc = loc(ffi)
+    where1 = where_of(repo, MOD, '_fit_peak_single_model', 'fit_peaks')
+    k_params = 5
     for n_points in (0, 1, 3, 4, 5, 8):
         for fit_raises in (False, True):
             w = World(repo)
             w.guess_needs = 1  # a guess from an empty selection fails inside the model
+            data = w.data(12)  # x = 0 .. 11, the window [2, 2 + n) selects n points
+            peak, bkg = steer(w, params=('peak_amplitude', 'peak_loc', 'peak_scale'), bkg_params=('bkg_a0', 'bkg_a1'), width=2,
+                              loc_val=F(2) + F(max(n_points, 1) - 1, 2), offset=2)
             w.model.fit_raises = fit_raises
-            w.model.popt_factory = lambda it, m, p0, w=w: {k: w.scalar(f'opt_{k}', CNT, 3) for k in sorted(p0)}
-            peak = ModelStub(w, 'peak', ['peak_amplitude', 'peak_loc', 'peak_scale'])
-            bkg = ModelStub(w, 'bkg', ['bkg_a0', 'bkg_a1'])
-            data = w.data(n_points)
-            window = w.model.array(w.it, [w.scalar('wlo', ANG, 0), w.scalar('whi', ANG, 100)], 'range')
-            token = object()
-            w.it.stubs[repo.func(MOD, '_assess_fit').fq] = lambda it, a, k, b, w=w: w.assess['success']
-            kind, res = w.call(sfi, [data], {'peak': peak, 'background': bkg, 'window': window,
-                                             'fit_parameters': fit_params(w), 'fit_requirements': None})
-            k_params = 5
+            window = w.model.array(w.it, [w.scalar('wlo', ANG, 2), w.scalar('whi', ANG, 2 + n_points)], 'range')
+            kind, res = fit_through_public(w, repo, data, peaks=peak, bkgs=bkg, window=window, requirements=requirements(repo))
             inst = f'{n_points} points, optimiser {"fails" if fit_raises else "converges"}'
-            if kind != 'return' or not isinstance(res, SObj):
-                r1.fail(inst, loc(sfi), {'outcome': (kind, res if kind == 'raise' else repr(res)[:120]), 'documented': 'a FitResult, never an exception'}, key='guard')
+            if kind != 'return' or not isinstance(res, list) or len(res) != 1 or not isinstance(res[0], SObj):
+                r1.fail(inst, where1, {'outcome': (kind, res if kind == 'raise' else repr(res)[:120]), 'documented': 'a FitResult, never an exception'}, key='guard')
                 continue
+            res = res[0]
             got = assessment_name(res.attrs.get('assessment'))
             if n_points < k_params:
                 ok = got == 'window_too_narrow' and not w.model.fits and not peak.guesses and not bkg.guesses
-                r1.check(ok, inst, loc(sfi), {'assessment': got, 'optimiser_calls': len(w.model.fits), 'guess_calls': len(peak.guesses) + len(bkg.guesses)}, key='guard')
+                r1.check(ok, inst, where1, {'assessment': got, 'optimiser_calls': len(w.model.fits), 'guess_calls': len(peak.guesses) + len(bkg.guesses)}, key='guard')
             elif fit_raises:
-                r1.check(got == 'failed', inst, loc(sfi), {'assessment': got}, key='failure')
+                r1.check(got == 'failed', inst, where1, {'assessment': got}, key='failure')
             else:
                 popt = res.attrs.get('popt')
-                fit = w.model.fits[-1] if w.model.fits else {}
+                full = [f_ for f_ in w.model.fits if any(k.startswith('peak_') for k in (f_.get('p0') or {}))]
+                fitted = items_of(full[-1]['data']) if full and isinstance(full[-1].get('data'), SVar) else None
+                on_window = fitted is not None and len(fitted) == n_points and all(x is y for x, y in zip(fitted, items_of(data)[2:2 + n_points], strict=True))
+                rw = res.attrs.get('window')
+                same_window = isinstance(rw, SVar) and items_of(rw) is not None and all(x is y for x, y in zip(items_of(rw), items_of(window), strict=True))
                 ok = got == 'success' and isinstance(popt, dict) and sorted(popt) == sorted(peak.param_names | bkg.param_names) \
-                    and all(isinstance(res.attrs.get(s_), SVar) for s_ in ('red_chisq', 'p_value', 'aic')) \
-                    and res.attrs.get('window') is window and fit.get('data') is data
-                r1.check(ok, inst, loc(sfi), {'assessment': got, 'popt': sorted(popt) if isinstance(popt, dict) else repr(popt)[:80],
-                                              'fitted_on_the_window_data': fit.get('data') is data}, key='result')
+                    and all(isinstance(res.attrs.get(s_), SVar) for s_ in ('red_chisq', 'p_value', 'aic')) and same_window and on_window
+                r1.check(ok, inst, where1, {'assessment': got, 'popt': sorted(popt) if isinstance(popt, dict) else repr(popt)[:80],
+                                            'fitted_on_the_window_data': on_window, 'result_carries_the_window': same_window}, key='result')
 
-    # ---- R2: the assessment cascade ------------------------------------------------------------------------------
+    # ---- R2: the assessment cascade (through fit_peaks; the third-party calls are programmed) ---------------------------
     r2 = run.rule('R2', 'success iff no requirement is violated; otherwise a violated requirement is named; never raises', 40)
-    afi = repo.func(MOD, '_assess_fit')
+    where2 = where_of(repo, MOD, '_assess_fit', 'fit_peaks')
     bad2 = {}
     n2 = 0
     for flags in itertools.product((False, True), repeat=6):
@@ -247,182 +285,181 @@ def run(tier: str) -> Run:
         for edge_side in (('left', 'right', 'last point', 'outside left', 'outside right') if viol['peak_near_edge'] else ('left',)):
             for with_bkg_stats in ((True,) if viol['background_is_better'] else (True, False)):
                 w = World(repo)
-                # a non-uniform grid: fine below x = 2, coarse above; spacing around x = 6 is 2, the average spacing 1.25
-                data = w.data(9, variances=False, grid=(0, F(1, 2), 1, F(3, 2), 2, 4, 6, 8, 10))
+                # a non-uniform grid: fine below x = 2, coarse above; spacing around x = 6 is 2, the smallest spacing 1/2
+                data = w.data(9, grid=(0, F(1, 2), 1, F(3, 2), 2, 4, 6, 8, 10))
                 # (a fitted location outside the window, by more than two steps, is closer to the edge than any point inside)
                 loc_val = {'left': F(1, 4), 'right': F(19, 2), 'last point': F(10), 'outside left': F(-3), 'outside right': F(14)}[edge_side] if viol['peak_near_edge'] else F(6)
-                popt = {'peak_loc': w.scalar('loc', ANG, loc_val), 'peak_amplitude': w.scalar('amp', CNT, -1 if viol['peak_points_down'] else 5),
-                        'bkg_a0': w.scalar('a0', CNT, 1)}
-                peak = ModelStub(w, 'peak', ['peak_amplitude', 'peak_loc'])
-                # window width 10, spacing around the centre 2: max width factor 0.5 (-> 5), min width factor 2 (-> 4)
-                peak.fwhm_value = w.scalar('fwhm', ANG, 6 if viol['peak_too_wide'] else (3 if viol['peak_too_narrow'] else F(9, 2)), positive=True)
-                stats = {'aic': w.scalar('aic', Unit(), 10), 'p_value': w.scalar('p', Unit(), F(1, 1000) if viol['p_too_small'] else F(1, 2)),
-                         'red_chisq': w.scalar('rchi', Unit(), 1)}
-                bstats = {'aic': w.scalar('baic', Unit(), 5 if viol['background_is_better'] else 20), 'p_value': w.scalar('bp', Unit(), F(1, 2)),
-                          'red_chisq': w.scalar('brchi', Unit(), 1)} if with_bkg_stats else None
-                req = SObj(repo.cls('peaks._common', 'FitRequirements'), {'min_p_value': w.scalar('minp', Unit(), F(1, 100)),
-                                                                           'max_peak_width_factor': F(1, 2), 'min_peak_width_factor': 2})
-                req.attrs['max_peak_width_factor'] = 0.5
-                req.attrs['min_peak_width_factor'] = 2.0
-                kind, res = w.call(afi, [data, peak, popt, as_declared(repo, afi, 'goodness_stats', stats), as_declared(repo, afi, 'bkg_goodness_stats', bstats)], {'fit_requirements': req})
-                n2 += 1
                 violated = [k for k, v in viol.items() if v]
-                got = assessment_name(res) if kind == 'return' else None
-                if kind != 'return':
-                    bad2.setdefault('never raises', {'violated': violated, 'outcome': (kind, res)})
+                # window width 10, spacing around the centre 2: max width factor 0.5 (-> 5), min width factor 2 (-> 4); fwhm 9/2 meets both
+                peak, bkg = steer(w, violate=violated, loc_val=loc_val, bkg_fit_fails=not with_bkg_stats)
+                window = w.model.array(w.it, [w.scalar('wlo', ANG, -1), w.scalar('whi', ANG, 100)], 'range')
+                kind, res = fit_through_public(w, repo, data, peaks=peak, bkgs=bkg, window=window,
+                                               requirements=requirements(repo, max_peak_width_factor=0.5, min_peak_width_factor=2.0))
+                n2 += 1
+                ok_shape = kind == 'return' and isinstance(res, list) and len(res) == 1 and isinstance(res[0], SObj)
+                got = assessment_name(res[0].attrs.get('assessment')) if ok_shape else None
+                if not ok_shape:
+                    bad2.setdefault('never raises', {'violated': violated, 'outcome': (kind, res if kind == 'raise' else repr(res)[:120])})
                 elif not violated and got != 'success':
-                    bad2.setdefault('all requirements met -> success', {'assessment': got})
+                    bad2.setdefault('all requirements met -> success', {'assessment': got, 'separate_background_fit': with_bkg_stats})
                 elif violated and got == 'success':
-                    bad2.setdefault('success only when ' + violated[0] + ' is met', {'violated': violated, 'assessment': got})
+                    bad2.setdefault('success only when ' + violated[0] + ' is met', {'violated': violated, 'assessment': got, 'peak_location': str(loc_val)})
                 elif violated and got not in violated:
                     bad2.setdefault('reported reason is a violated requirement', {'violated': violated, 'assessment': got})
     names = ['never raises', 'all requirements met -> success', 'reported reason is a violated requirement'] + [f'success only when {r_} is met' for r_ in REQUIREMENTS]
     for inst in names:
         hit = next((v for k, v in bad2.items() if k == inst), None)
-        r2.check(hit is None, inst, loc(afi), hit or {'configurations': n2}, key=inst)
+        r2.check(hit is None, inst, where2, hit or {'configurations': n2}, key=inst)
     for _ in range(n2 - len(names)):
         r2.ok('configuration')
 
-    # ---- R3: one result per window; first success wins ---------------------------------------------------------------
+    # ---- R3: one result per window; first success wins (through fit_peaks) -----------------------------------------------
     r3 = run.rule('R3', 'one result per estimate, in order, fitted on the window data; first success in product order, else first candidate', 18)
-    ffi = repo.func(MOD, 'fit_peaks')
-    try:
-        pfi = repo.func(MOD, '_fit_peak')
-    except AnalysisError:
-        pfi = None
+    where3 = where_of(repo, MOD, '_fit_peak', 'fit_peaks')
     for pattern in itertools.product((False, True), repeat=4):
         w = World(repo)
-        peaks = (ModelStub(w, 'p0', ['peak_loc']), ModelStub(w, 'p1', ['peak_loc']))
-        bkgs = (ModelStub(w, 'b0', ['bkg_a0']), ModelStub(w, 'b1', ['bkg_a0']))
+        peaks = (ModelStub(w, 'p0', ['peak_amplitude', 'peak_loc']), ModelStub(w, 'p1', ['peak_amplitude', 'peak_loc', 'peak_scale']))
+        bkgs = (ModelStub(w, 'b0', ['bkg_a0']), ModelStub(w, 'b1', ['bkg_a0', 'bkg_a1']))
         order = [(p, b) for p in peaks for b in bkgs]
-        made = []
+        program(w, peaks, bkgs, width=2, loc_val=F(5))
+        tried = []
 
-        def single(it, args, kwargs, bound, w=w, order=order, pattern=pattern, made=made):
-            pk, bg = kwargs.get('peak'), kwargs.get('background')
-            idx = next(i for i, (p, b) in enumerate(order) if p is pk and b is bg)
-            res = SObj(repo.cls(MOD, 'FitResult'), {'assessment': w.assess['success'] if pattern[idx] else w.assess['failed'], 'tag': idx})
-            made.append(idx)
-            return res
-        w.it.stubs[repo.func(MOD, '_fit_peak_single_model').fq] = single
-        data = w.data(6)
+        def fails(p0, order=order, pattern=pattern, tried=tried):
+            keys = set(p0 or {})
+            idx = next((i for i, (p, b) in enumerate(order) if keys == p.param_names | b.param_names), None)
+            if idx is None:
+                return False  # a background-only comparison fit
+            tried.append(idx)
+            return not pattern[idx]
+        w.model.fit_raises = fails
+        data = w.data(11)
         window = w.model.array(w.it, [w.scalar('wlo', ANG, 0), w.scalar('whi', ANG, 100)], 'range')
-        if pfi is not None:
-            kind, res = w.call(pfi, [data, window, bkgs, peaks, fit_params(w), None])
-        else:
-            # no per-window helper of today's shape: the same question through fit_peaks with one explicit window
-            stub_existing(w, repo, '_assert_data_is_supported', lambda *a: None)
-            stub_existing(w, repo, '_parse_model_spec', lambda it, args, kwargs, bound: tuple(args[0]))
-            est = w.model.array(w.it, [w.scalar('c0', ANG, 50)], 'x')
-            kind, res = w.call(ffi, [data], {'peak_estimates': est, 'windows': w.model.matrix(w.it, [window], 'x'), 'background': bkgs, 'peak': peaks,
-                                             'fit_parameters': fit_params(w)})
-            if kind == 'return':
-                res = res[0] if isinstance(res, list) and len(res) == 1 else None
+        kind, res = fit_through_public(w, repo, data, peaks=peaks, bkgs=bkgs, window=window, requirements=requirements(repo))
         want = pattern.index(True) if any(pattern) else 0
-        got = res.attrs.get('tag') if kind == 'return' and isinstance(res, SObj) else None
-        r3.check(got == want, f'success pattern {pattern}', loc(pfi or ffi), {'returned_candidate': got, 'documented': want, 'tried': made, 'outcome': kind}, key='selection')
-    ffi = repo.func(MOD, 'fit_peaks')
-    for order_label, los, his in (('increasing windows', (1, 4), (3, 7)), ('overlapping and empty windows', (2, 5, 9), (6, 5, 20))):
+        got = None
+        if kind == 'return' and isinstance(res, list) and len(res) == 1 and isinstance(res[0], SObj):
+            got = next((i for i, (p, b) in enumerate(order) if res[0].attrs.get('peak') is p and res[0].attrs.get('background') is b), None)
+            if got is not None and (assessment_name(res[0].attrs.get('assessment')) == 'success') != any(pattern):
+                got = ('wrong assessment', assessment_name(res[0].attrs.get('assessment')))
+        r3.check(got == want, f'success pattern {pattern}', where3, {'returned_candidate': got, 'documented': want, 'tried': tried, 'outcome': kind}, key='selection')
+    for order_label, los, his in (('increasing windows', (1, 6), (6, 11)), ('overlapping and empty windows', (2, 5, 9), (9, 5, 20))):
         w = World(repo)
-        data = w.data(8)
+        data = w.data(12)
+        peak, bkg = steer(w, width=2, loc_val=F(4))
         rows = [w.model.array(w.it, [w.scalar(f'lo{i}', ANG, lo), w.scalar(f'hi{i}', ANG, hi)], 'range') for i, (lo, hi) in enumerate(zip(los, his, strict=True))]
         windows = w.model.matrix(w.it, rows, 'x')
-        est = w.model.array(w.it, [w.scalar(f'c{i}', ANG, (lo + hi) / 2) for i, (lo, hi) in enumerate(zip(los, his, strict=True))], 'x')
-        seen = []
-
-        def one(it, args, kwargs, bound, seen=seen, w=w):
-            seen.append((args[0], args[1] if len(args) > 1 else kwargs.get('window')))
-            if pfi is None:
-                return SObj(repo.cls(MOD, 'FitResult'), {'assessment': w.assess['success'], 'tag': len(seen) - 1})
-            return ('result', len(seen) - 1)
-        if pfi is not None:
-            w.it.stubs[pfi.fq] = one
-        else:
-            w.it.stubs[repo.func(MOD, '_fit_peak_single_model').fq] = one  # one candidate per window: its first result is the window's result
-        stub_existing(w, repo, '_assert_data_is_supported', lambda *a: None)
-        stub_existing(w, repo, '_parse_model_spec', lambda it, args, kwargs, bound: ('models', kwargs.get('prefix')))
-        kind, res = w.call(ffi, [data], {'peak_estimates': est, 'windows': windows, 'background': 'linear', 'peak': 'gaussian'})
-        if pfi is None and kind == 'return' and isinstance(res, list):
-            res = [('result', r_.attrs.get('tag')) if isinstance(r_, SObj) else r_ for r_ in res]
-        ok = kind == 'return' and res == [('result', i) for i in range(len(los))] and len(seen) == len(los)
+        est = w.model.array(w.it, [w.scalar(f'c{i}', ANG, F(lo + hi, 2)) for i, (lo, hi) in enumerate(zip(los, his, strict=True))], 'x')
+        kind, res = fit_through_public(w, repo, data, peaks=peak, bkgs=bkg, windows=windows, estimates=est)
+        ok = kind == 'return' and isinstance(res, list) and len(res) == len(los) and all(isinstance(r_, SObj) for r_ in res)
         detail = {'outcome': kind, 'results': repr(res)[:120]}
         if ok:
-            for i, (d_in, win) in enumerate(seen):
-                its = items_of(d_in) or []
-                want_idx = [j for j in range(8) if los[i] <= j < his[i]]
-                got_idx = [next((j for j, y in enumerate(items_of(data)) if y is x), None) for x in its]
-                if got_idx != want_idx or items_of(win) is None or items_of(win)[0] is not items_of(rows[i])[0]:
-                    ok = False
-                    detail = {'window': i, 'points_fitted': got_idx, 'points_inside_the_window': want_idx}
-        r3.check(ok, f'fit_peaks [{order_label}]', loc(ffi), detail, key='loop')
+            fits = full_fits(w)
+            k_par = len(peak.param_names | bkg.param_names)
+            for i, r_ in enumerate(res):
+                want_idx = [j for j in range(12) if los[i] <= j < his[i]]
+                rw = r_.attrs.get('window')
+                if not (isinstance(rw, SVar) and items_of(rw) is not None and all(x is y for x, y in zip(items_of(rw), items_of(rows[i]), strict=True))):
+                    ok, detail = False, {'window': i, 'problem': 'result i does not carry window i'}
+                    break
+                if len(want_idx) < k_par:
+                    if assessment_name(r_.attrs.get('assessment')) != 'window_too_narrow':
+                        ok, detail = False, {'window': i, 'points': len(want_idx), 'assessment': assessment_name(r_.attrs.get('assessment'))}
+                        break
+                    continue
+                fit = fits.pop(0) if fits else None
+                its = items_of(fit['data']) if fit and isinstance(fit.get('data'), SVar) else None
+                got_idx = [next((j for j, y in enumerate(items_of(data)) if y is x), None) for x in (its or [])]
+                if got_idx != want_idx:
+                    ok, detail = False, {'window': i, 'points_fitted': got_idx, 'points_inside_the_window': want_idx}
+                    break
+            if ok and fits:
+                ok, detail = False, {'problem': f'{len(fits)} more peak fits than windows with enough points'}
+        r3.check(ok, f'fit_peaks [{order_label}]', ffi_loc, detail, key='loop')
 
-    # ---- R4: statistics ---------------------------------------------------------------------------------------------------
+    # ---- R4: statistics (through fit_peaks: the fields of the FitResult) -------------------------------------------------------
     r4 = run.rule('R4', 'chi2 = sum((y-f)^2/var); red = chi2/(n-k); p = 1-cdf(chi2; n-k); aic = n ln(chi2/n) + 2k, from the returned parameters and the window data', 4)
-    perf = repo.func(MOD, '_perform_fit')
-    w = World(repo)
-    w.model.popt_factory = lambda it, m, p0, w=w: {k: with_variance(w, w.scalar(f'opt_{k}', CNT, 3)) for k in sorted(p0)}
-    model = ModelStub(w, 'm', ['a', 'b'])
-    data = w.data(4)
-    p0 = {'a': w.scalar('a0', CNT, 1), 'b': w.scalar('b0', CNT, 1)}
-    kind, res = w.call(perf, [model, data], {'p0': p0, 'bounds': model.param_bounds})
-    probs = []
-    if kind != 'return' or not isinstance(res, tuple) or len(res) != 2 or stats_dict(w, res[1]) is None:
-        probs.append(f'_perform_fit: {kind} {res!r}'[:200])
-    else:
-        popt, stats = res[0], stats_dict(w, res[1])
-        fit = w.model.fits[-1]
-        if fit.get('data') is not data or fit.get('p0') is not p0:
-            probs.append('the optimiser is not handed the window data and the initial parameters')
-        if not model.calls:
-            probs.append('the model is never evaluated at the returned parameters')
-        else:
-            x_arg, params = model.calls[-1]
-            if items_of(x_arg) is None or any(a is not b for a, b in zip(items_of(x_arg), items_of(data.members['coords']['x']), strict=False)):
-                probs.append('the best fit is not evaluated on the window coordinate')
-            for k, v in params.items():
-                if not (isinstance(v, SVar) and isinstance(v.term, Rat) and v.term.eq(Rat.sym(f'opt_{k}'))):
-                    probs.append(f'parameter {k} handed to the model is not the optimised value')
-            f_items = [Rat.sym(f'f_m_{len(model.calls)}_x{i}') for i in range(4)]
-            chi2 = Rat.const(0)
-            for i in range(4):
-                chi2 = chi2 + (Rat.sym(f'y{i}') - f_items[i]) ** 2 / Rat.sym(f'v{i}', positive=True)
-            n, k_ = 4, 2
-            want = {'red_chisq': chi2 / (n - k_), 'aic': n * T.FN_CTORS['log'](chi2 / n) + 2 * k_,
-                    'p_value': 1 - Rat.fn('chi2cdf', Rat.const(n - k_), chi2)}
-            for name, wt in want.items():
-                g = stats.get(name)
-                if not (isinstance(g, SVar) and isinstance(g.term, Rat) and g.term.eq(wt)):
-                    probs.append(f'{name} = {T.show(g.term)[:200] if isinstance(g, SVar) and g.term is not None else g!r}, expected {T.show(wt)[:200]}')
-    r4.check(not probs, '_perform_fit statistics', loc(perf), {'problems': probs[:3]}, key='_goodness_of_fit_statistics')
-    # a window with exactly as many points as parameters has no degree of freedom: chi2/(n-k) is not a number,
-    # and with one degree of freedom the divisor is 1
-    gfi = repo.func(MOD, '_goodness_of_fit_statistics')
-    for n_pts, k_par in ((2, 2), (3, 2)):
+    where4 = where_of(repo, MOD, '_goodness_of_fit_statistics', '_perform_fit', 'fit_peaks')
+
+    def fit_window_of(n_pts):
+        """fit_peaks on a window of n_pts points (3 parameters); returns (world, data, peak, bkg, kind, result)."""
         w = World(repo)
         data = w.data(n_pts)
-        best = w.model.array(w.it, [w.scalar(f'f{i}', CNT, 1 + i) for i in range(n_pts)], 'x')
-        best.kind = 'dataarray'
-        best.members['coords'] = dict(data.members['coords'])
-        params = {f'p{j}': w.scalar(f'p{j}', CNT, 1) for j in range(k_par)}
-        kind, st = w.call(gfi, [data, best, params])
-        st = stats_dict(w, st) if kind == 'return' and stats_dict(w, st) is not None else st
-        chi2 = Rat.const(0)
+        peak, bkg = steer(w, width=F(3, 2), loc_val=F(n_pts - 1, 2))
+        window = w.model.array(w.it, [w.scalar('wlo', ANG, -1), w.scalar('whi', ANG, 100)], 'range')
+        kind, res = fit_through_public(w, repo, data, peaks=peak, bkgs=bkg, window=window, requirements=requirements(repo))
+        return w, data, peak, bkg, kind, (res[0] if kind == 'return' and isinstance(res, list) and len(res) == 1 else res)
+
+    def chi2_of(n_pts, f_name):
+        t = Rat.const(0)
         for i in range(n_pts):
-            chi2 = chi2 + (Rat.sym(f'y{i}') - Rat.sym(f'f{i}')) ** 2 / Rat.sym(f'v{i}', positive=True)
-        inst = f'{n_pts} points, {k_par} parameters'
-        if n_pts == k_par:
-            # either an exception or an undefined (non-finite) statistic; never a finite chi2 / m
-            finite = kind == 'return' and isinstance(st, dict) and isinstance(st.get('red_chisq'), SVar) and isinstance(st['red_chisq'].term, Rat)
-            r4.check(not finite, f'reduced chi-square is undefined for {inst}', loc(gfi),
-                     {'red_chisq': T.show(st['red_chisq'].term) if finite else None, 'documented': 'chi2 / (n - k) with n - k = 0'}, key='dof-zero')
+            t = t + (Rat.sym(f'y{i}') - Rat.sym(f'{f_name}_x{i}')) ** 2 / Rat.sym(f'v{i}', positive=True)
+        return t
+
+    n, k_ = 7, 3
+    w, data, peak, bkg, kind, res = fit_window_of(n)
+    probs = []
+    if kind != 'return' or not isinstance(res, SObj):
+        probs.append(f'fit_peaks: {kind} {res!r}'[:200])
+    else:
+        fits = full_fits(w)
+        comp = w.composites[-1] if w.composites else None
+        if len(fits) != 1 or comp is None:
+            probs.append(f'{len(fits)} optimiser calls for the peak + background model, one expected')
         else:
-            ok = kind == 'return' and isinstance(st, dict) and isinstance(st.get('red_chisq'), SVar) and isinstance(st['red_chisq'].term, Rat) \
-                and st['red_chisq'].term.eq(chi2 / (n_pts - k_par))
-            r4.check(ok, f'reduced chi-square for {inst}', loc(gfi), {'outcome': kind}, key='dof-one')
-    r4.check(not [p_ for p_ in probs if 'optimis' in p_ or 'evaluated' in p_ or 'parameter' in p_], '_perform_fit feeds popt and window data', loc(perf), {'problems': probs[:3]}, key='perform-fit')
+            fit = fits[0]
+            fitted = items_of(fit['data']) if isinstance(fit.get('data'), SVar) else None
+            p0 = fit.get('p0') or {}
+            if fitted is None or len(fitted) != n or any(a_ is not b_ for a_, b_ in zip(fitted, items_of(data), strict=False)) \
+                    or sorted(p0) != sorted(comp.param_names) or not all(isinstance(v, SVar) and isinstance(v.term, Rat) and v.term.eq(Rat.sym(f'g_{k}')) for k, v in p0.items()):
+                probs.append('the optimiser is not handed the window data and the initial parameters guessed by the models')
+            if not comp.calls:
+                probs.append('the model is never evaluated at the returned parameters')
+            else:
+                x_arg, params = comp.calls[-1]
+                if items_of(x_arg) is None or any(a_ is not b_ for a_, b_ in zip(items_of(x_arg), items_of(data.members['coords']['x']), strict=False)):
+                    probs.append('the best fit is not evaluated on the window coordinate')
+                for k, v in params.items():
+                    if not (isinstance(v, SVar) and isinstance(v.term, Rat) and v.term.eq(Rat.sym(f'opt_{k}'))):
+                        probs.append(f'parameter {k} handed to the model is not the optimised value')
+                chi2 = chi2_of(n, f'f_{comp.name}_{len(comp.calls)}')
+                want = {'red_chisq': chi2 / (n - k_), 'aic': n * T.FN_CTORS['log'](chi2 / n) + 2 * k_,
+                        'p_value': 1 - Rat.fn('chi2cdf', Rat.const(n - k_), chi2)}
+                for name, wt in want.items():
+                    g = res.attrs.get(name)
+                    if not (isinstance(g, SVar) and isinstance(g.term, Rat) and g.term.eq(wt)):
+                        probs.append(f'{name} = {T.show(g.term)[:200] if isinstance(g, SVar) and g.term is not None else g!r}, expected {T.show(wt)[:200]}')
+                popt = res.attrs.get('popt')
+                if not (isinstance(popt, dict) and sorted(popt) == sorted(comp.param_names)
+                        and all(isinstance(v, SVar) and isinstance(v.term, Rat) and v.term.eq(Rat.sym(f'opt_{k}')) for k, v in popt.items())):
+                    probs.append('popt of the result is not what the optimiser returned')
+    r4.check(not [p_ for p_ in probs if ' = ' in p_ or 'fit_peaks:' in p_ or 'optimiser calls' in p_], 'statistics of the result', where4, {'problems': probs[:3]}, key='_goodness_of_fit_statistics')
+    # a window with exactly as many points as parameters has no degree of freedom: chi2/(n-k) is not a number,
+    # and with one degree of freedom the divisor is 1
+    for n_pts in (3, 4):
+        inst = f'{n_pts} points, 3 parameters'
+        try:
+            w, data, peak, bkg, kind, res = fit_window_of(n_pts)
+        except AnalysisError as ex:
+            if n_pts == 3:
+                r4.ok(f'reduced chi-square is undefined for {inst}', {'outcome': f'not a number: {ex}'[:160]})
+                continue
+            raise
+        red = res.attrs.get('red_chisq') if kind == 'return' and isinstance(res, SObj) else None
+        comp = w.composites[-1] if w.composites else None
+        if n_pts == 3:
+            # either an exception or an undefined (non-finite) statistic; never a finite chi2 / m
+            finite = isinstance(red, SVar) and isinstance(red.term, Rat) and w.model.value(red) is not None
+            r4.check(not finite, f'reduced chi-square is undefined for {inst}', where4,
+                     {'red_chisq': T.show(red.term) if finite else None, 'documented': 'chi2 / (n - k) with n - k = 0'}, key='dof-zero')
+        else:
+            ok = isinstance(red, SVar) and isinstance(red.term, Rat) and comp is not None and red.term.eq(chi2_of(n_pts, f'f_{comp.name}_{len(comp.calls)}') / 1)
+            r4.check(ok, f'reduced chi-square for {inst}', where4, {'outcome': kind, 'red_chisq': T.show(red.term)[:160] if isinstance(red, SVar) and red.term is not None else repr(red)}, key='dof-one')
+    r4.check(not [p_ for p_ in probs if 'optimis' in p_ or 'evaluated' in p_ or 'parameter' in p_ or 'popt' in p_], 'the optimiser gets the window data and the guesses; its result is evaluated and reported', where4,
+             {'problems': probs[:3]}, key='perform-fit')
 
     # ---- R5: automatic windows ---------------------------------------------------------------------------------------------
     r5 = run.rule('R5', 'windows: [c-w/2, nextafter(c+w/2)] clipped to the data range and to the neighbour separation on interior edges', 4)
-    wfi = repo.func(MOD, '_fit_windows')
+    where5 = where_of(repo, MOD, '_fit_windows', 'fit_peaks')
     layouts = {
         'isolated peaks, window inside the data': ((10, 30, 50), 4),
         'windows wider than the peak distance': ((10, 14, 50), 12),
@@ -436,16 +473,18 @@ def run(tier: str) -> Run:
         cs = [w.scalar(f'c{i}', ANG, c) for i, c in enumerate(centres)]
         centre = w.model.array(w.it, cs, 'x')
         wd = w.scalar('width', ANG, width, positive=True)
-        fp = fit_params(w)
-        kind, res = w.call(wfi, [data, centre, wd, fp])
+        peak, bkg = steer(w, width=2)
+        # the windows are what fit_peaks reports in its results when it is given a width instead of explicit windows
+        kind, res = fit_through_public(w, repo, data, peaks=peak, bkgs=bkg, estimates=centre, width=wd)
         probs = []
-        if kind != 'return' or not isinstance(res, SVar) or rows_of(res) is None or len(rows_of(res)) != len(centres):
+        wins = [r_.attrs.get('window') for r_ in res] if kind == 'return' and isinstance(res, list) and all(isinstance(r_, SObj) for r_ in res) else None
+        if wins is None or len(wins) != len(centres) or not all(isinstance(x, SVar) and items_of(x) is not None and len(items_of(x)) == 2 for x in wins):
             probs.append(f'{kind} {res!r}'[:160])
         else:
             val = w.model.val
             sep = Rat.const(F(1, 3))
             lo_d, hi_d = Rat.sym('x0'), Rat.sym('x60')
-            for i, row in enumerate(rows_of(res)):
+            for i, row in enumerate(wins):
                 lo_c, hi_c = items_of(row)
                 c = cs[i].term
                 half = wd.term / 2
@@ -463,7 +502,7 @@ def run(tier: str) -> Run:
                 for label, got, want in (('lower', lo_c, want_lo), ('upper', hi_c, want_hi)):
                     if not (isinstance(got.term, Rat) and (got.term.eq(want) or ev(got.term) == ev(want))):
                         probs.append(f'{label} edge of window {i}: {T.show(got.term) if got.term is not None else None}, expected {T.show(want)}')
-        r5.check(not probs, name, loc(wfi), {'problems': probs[:3]}, key='_fit_windows')
+        r5.check(not probs, name, where5, {'problems': probs[:3]}, key='_fit_windows')
 
     # ---- R6: remove_peaks ------------------------------------------------------------------------------------------------------
     r6 = run.rule('R6', 'remove_peaks: exactly the peaks of successful results are subtracted inside their windows, from a copy; input untouched', 4)
